@@ -62,6 +62,9 @@ def reset():
     del DEFINED[:]
     del TINY_SEEN[:]
     PATH.start([])
+    PATH.exploring = False
+    EAGER_MASKS[0] = False
+    del PATH.unexplored[:]
     GENERIC[0] = False
 
 
@@ -1156,24 +1159,37 @@ def var_id(v):
 GENERIC = [False]
 
 
+EAGER_MASKS = [False]      # comparisons of arrays are decided element by element (path split) instead of staying symbolic
+
+
+def _cmp(r):
+    r = r.view(SymArray)
+    if EAGER_MASKS[0]:
+        out = np.empty(r.shape, dtype=bool)
+        for idx in (np.ndindex(*r.shape) if r.shape else [()]):
+            out[idx] = bool(r[idx])
+        return out
+    return r
+
+
 class SymArray(np.ndarray):
     def __eq__(self, o):
-        return np.equal(self, o, dtype=object).view(SymArray)
+        return _cmp(np.equal(self, o, dtype=object))
 
     def __ne__(self, o):
-        return np.not_equal(self, o, dtype=object).view(SymArray)
+        return _cmp(np.not_equal(self, o, dtype=object))
 
     def __gt__(self, o):
-        return np.greater(self, o, dtype=object).view(SymArray)
+        return _cmp(np.greater(self, o, dtype=object))
 
     def __lt__(self, o):
-        return np.less(self, o, dtype=object).view(SymArray)
+        return _cmp(np.less(self, o, dtype=object))
 
     def __ge__(self, o):
-        return np.greater_equal(self, o, dtype=object).view(SymArray)
+        return _cmp(np.greater_equal(self, o, dtype=object))
 
     def __le__(self, o):
-        return np.less_equal(self, o, dtype=object).view(SymArray)
+        return _cmp(np.less_equal(self, o, dtype=object))
 
     def __array_wrap__(self, out, context=None, return_scalar=False):
         if getattr(out, "ndim", 1) == 0:
@@ -1241,6 +1257,8 @@ class Path:
         self.script = []
         self.pos = 0
         self.taken = []
+        self.exploring = False
+        self.unexplored = []          # decisions taken while no exploration was running: only the False branch was seen
 
     def start(self, script):
         self.script = list(script)
@@ -1254,6 +1272,8 @@ class Path:
         b = self.script[self.pos] if self.pos < len(self.script) else False
         self.pos += 1
         self.taken.append((key, cond, b))
+        if not self.exploring:
+            self.unexplored.append(cond)
         return b
 
 
@@ -1261,21 +1281,28 @@ PATH = Path()
 
 
 def explore(fn, max_paths=256):
-    """run fn() under every decision script; yields (taken, result)"""
+    """run fn() under every decision script; yields (taken, result).  The consumer's loop body runs on the same path (its
+    decisions replay by key); a decision it meets for the first time there is not explored and is recorded as such"""
     todo = [[]]
     n = 0
-    while todo:
-        script = todo.pop()
-        PATH.start(script)
-        res = fn()
-        taken = list(PATH.taken)
-        n += 1
-        if n > max_paths:
-            raise OutsideFragment("more than %d paths" % max_paths)
-        yield taken, res
-        for i in range(len(script), len(taken)):
-            todo.append([t[2] for t in taken[:i]] + [True])
-    PATH.start([])
+    try:
+        while todo:
+            script = todo.pop()
+            PATH.start(script)
+            PATH.exploring = True
+            res = fn()
+            taken = list(PATH.taken)
+            n += 1
+            if n > max_paths:
+                raise OutsideFragment("more than %d paths" % max_paths)
+            yield taken, res
+            if len(PATH.taken) > len(taken):
+                PATH.unexplored.extend(c for k, c, b in PATH.taken[len(taken):])
+            for i in range(len(script), len(taken)):
+                todo.append([t[2] for t in taken[:i]] + [True])
+    finally:
+        PATH.exploring = False
+        PATH.start([])
 
 
 # ---------------------------------------------------------------------------------------------------------------
@@ -1499,14 +1526,15 @@ def show(f, maxterms=8, depth=2):
     return " + ".join(parts)
 
 
-def subs_indicators(f, value):
-    """f with every top-level indicator atom replaced by the constant value (0 or 1)"""
+def subs_indicators(f, value, only=None):
+    """f with every top-level indicator atom (every one whose condition satisfies `only`, if given) replaced by the
+    constant value (0 or 1)"""
     out = {}
     for m, c in f.p.items():
         keep = []
         dead = False
         for a, e in m:
-            if A.kind[a] == 'ind':
+            if A.kind[a] == 'ind' and (only is None or only(A.info[a])):
                 if value == 0:
                     dead = True
                     break
